@@ -38,6 +38,7 @@ def setup(ctx):
         "a 'loop-free chain of at most max_redirects redirects' counts redirects, so it needs max_redirects+1 connections",
     ]
     ctx.require("monitor", "concurrent_fetches", 30)
+    ctx.require("monitor", "fetches_with_trouble_after_3x", 8)
     ctx.require("monitor", "fetches", 300)
     ctx.require("monitor", "connections_logged", 500)
     ctx.require("monitor", "verify_calls", 500)
@@ -48,6 +49,7 @@ def setup(ctx):
 class World:
     def __init__(self):
         self.table = {}  # (server_index, path) -> response bytes
+        self.trouble = {}  # (server_index, path) -> 'late-bytes' | 'reset'  (after the response has been sent)
         self.lock = threading.Lock()
         self.verify_calls = []
 
@@ -62,6 +64,22 @@ class World:
                 path = path.split("?")[0]
                 resp = self.table.get((idx, path), b"51 not in graph\r\n")
                 conn.send(resp)
+                trouble = self.trouble.get((idx, path))
+                if trouble:
+                    # a hop that misbehaves AFTER its complete response: more bytes once the client has hung up, or
+                    # a reset instead of a clean close
+                    import time
+
+                    time.sleep(0.06)
+                    try:
+                        if trouble == "reset":
+                            conn.reset()
+                            return
+                        conn.send(b"unexpected bytes after the header " * 20)
+                        time.sleep(0.02)
+                        conn.send(b"20 text/gemini\r\nsecond response\n")
+                    except Exception:
+                        pass
                 conn.close()
 
             return behaviour
@@ -337,6 +355,56 @@ def random_graph(rng, world):
     return nodes, edges, nodes[0], f"random-N{n}"
 
 
+def run_trouble_after_redirect(ctx, world):
+    """Redirecting hops whose connection ends badly after the complete 3x header (late bytes, reset): the redirect
+    was complete - it is followed (or returned unchanged with following off), the chain is counted as usual."""
+    import asyncio
+    import tempfile
+
+    from nauyaca.client.session import GeminiClient
+
+    P0 = world.servers[0].port
+
+    def u(name):
+        return f"gemini://127.0.0.1:{P0}/{name}"
+
+    for trouble in ("late-bytes", "reset"):
+        for code in (30, 31):
+            for follow in (True, False):
+                world.table.clear()
+                world.trouble.clear()
+                world.table[(0, "/t0")] = f"{code} {u('t1')}\r\n".encode()
+                world.table[(0, "/t1")] = f"{code} {u('t2')}\r\n".encode()
+                world.table[(0, "/t2")] = b"20 text/gemini\r\nend of the troubled chain\n"
+                world.trouble[(0, "/t0")] = trouble
+                world.trouble[(0, "/t1")] = trouble
+                tmp = tempfile.mkdtemp(prefix="vf-c16t-")
+                marks = world.log_marks()
+
+                async def go():
+                    c = GeminiClient(timeout=8, max_redirects=5, trust_on_first_use=True, tofu_db_path=Path(os.path.join(tmp, "t.db")))
+                    return await c.get(u("t0"), follow_redirects=follow)
+
+                try:
+                    r = asyncio.run(go())
+                    res = ("response", r.status, r.meta)
+                except BaseException as e:  # noqa: BLE001
+                    res = ("error", type(e).__name__, str(e)[:80])
+                finally:
+                    shutil.rmtree(tmp, ignore_errors=True)
+                for srv in world.servers:
+                    srv.wait_idle(3)
+                conns = world.connections_since(marks)
+                ctx.count("monitor", "fetches_with_trouble_after_3x")
+                wit = {"level": "trouble-after-3x", "after_the_header": trouble, "code": code, "follow": follow, "result": res, "connections": len(conns)}
+                if follow and (res[:2] != ("response", 20) or len(conns) != 3):
+                    ctx.violation(f"redirect-lost:trouble-after-header:{trouble}", "a chain of two complete redirects was not followed to its final response because the hops' connections ended badly after the header", wit)
+                elif not follow and (res != ("response", code, u("t1")) or len(conns) != 1):
+                    ctx.violation(f"redirect-lost:trouble-after-header:{trouble}:no-follow", "with following off the complete 3x response was not returned unchanged", wit)
+                ctx.case(("trouble-after-3x", trouble, code, follow, res[0]), True, sample=wit)
+    world.trouble.clear()
+
+
 def run_concurrent(ctx, world):
     """Several redirect-following fetches in flight at once on ONE client: each keeps its own redirect count and
     loop history (chains within the limit are followed to the end, cycles and over-long chains stop in time)."""
@@ -435,6 +503,8 @@ def run(ctx):
         ctx.count("exhaustive_scope", f"{len(graphs)} graphs x max_redirects 0..6" + (" (all-N2 sampled 1/9)" if ctx.quick() else ""))
         if ctx.shard == 0 or ctx.nshards == 1:
             run_concurrent(ctx, world)
+        if ctx.shard == 1 or ctx.nshards == 1:
+            run_trouble_after_redirect(ctx, world)
         n = ctx.pick(160, 6000) // ctx.nshards
         for i in range(n):
             nodes, edges, start, label = random_graph(rng, world)
